@@ -185,6 +185,10 @@ func init() {
 		run: func(c *Ctx) {
 			rng := NewRng(c.Seed)
 			p := defaultCfg.Parser
+			var optCfgs []*Cfg
+			for _, n := range []string{"collapse", "specialAdd", "skipTrailSlash", "lax", "fail", "singlePct", "skipDrive", "report", "collapse+lax+singlePct+specialAdd"} {
+				optCfgs = append(optCfgs, cfgFromDesc(n))
+			}
 			c.Pool.Run(25000*c.Scale, func(d *Driver, i int) {
 				r := rng.Fork(i)
 				b := r.base()
@@ -228,6 +232,27 @@ func init() {
 				}
 				if o1.String() != o2.String() || (b != "" && o1.String() != o3.String()) {
 					c.Report(Finding{Class: "violation", What: fmt.Sprintf("the three ways of resolving disagree: Parser.ParseRef %s ; url.ParseRef %s ; base.Parse %s", o1.String(), o2.String(), o3.String()), Case: cs})
+				}
+				// the same for a Parser built with options: ParseRef(base string, ref) and Parse(base string).Parse(ref)
+				if b != "" {
+					oc := optCfgs[i%len(optCfgs)]
+					bb := b
+					if i%5 == 0 {
+						bb = r.Pick([]string{"http://example.com/a//b///c?x#y", "sc://example.com:99/a\\b?x#y", "gopher://h:70/a\\b//c?x#y", "http://example.com?x#y", "http://exa mple.com/a?x#y", "http://example.com\\a?x#y", "http://example.com/100%?x#y", "file:///C|/a//b"})
+					}
+					q1 := c.cmpParse(d, oc, &bb, ref, allFields, true, "ParseRef:"+oc.Desc, i)
+					q3 := guard(func() Obs {
+						B2, err := oc.Parser.Parse(bb)
+						if err != nil {
+							return implObs(nil, err)
+						}
+						return implObs(B2.Parse(ref))
+					})
+					if q1.String() != q3.String() {
+						cs2 := cs
+						cs2.Cfg, cs2.Base = oc.Desc, &bb
+						c.Report(Finding{Class: "violation", What: fmt.Sprintf("under %s, Parser.ParseRef with the base string and Parse on the base URL value disagree: %s ; %s", oc.Desc, q1.String(), q3.String()), Case: cs2})
+					}
 				}
 				if bo.Kind != "U" {
 					return
